@@ -1316,7 +1316,7 @@ class SymbolicExpr(CalculusFunction):
         elif isinstance(expr, Pow):
             b = expr.base
             e = expr.exp
-            v = Pow(cls.eval(b, code=code), e)
+            v = Pow(cls.eval(b, code=code), cls.eval(e, code=code))
             return v
 
         elif isinstance(expr, _coeffs_registery):
